@@ -23,10 +23,27 @@ def Pt(p): return Point(*fl(p))
 def Vc(p): return Vector(*fl(p))
 
 
+def _alt_form(o):
+    """one object in five is built through an ALTERNATIVE constructor form (deterministic in the descriptor): Plane(a, b, c, d),
+    Line(p, q), Segment(p, vector), HalfLine(p, q) -- the same object by the property's own definition of the forms (C17)"""
+    import hashlib
+    return int(hashlib.blake2b(repr(o).encode(), digest_size=2).hexdigest(), 16) % 5 == 0
+
+
 def build(o):
     k = o[0]
     if k == 'P':
         return Pt(o[1])
+    if k in ('L', 'PL', 'S', 'H') and _alt_form(o):
+        a, b = tuple(F(c) for c in o[1]), tuple(F(c) for c in o[2])
+        if k == 'PL':
+            d = sum(x * y for x, y in zip(a, b))
+            return Plane(float(b[0]), float(b[1]), float(b[2]), float(d))
+        if k == 'L':
+            return Line(Pt(a), Pt(tuple(x + y for x, y in zip(a, b))))
+        if k == 'H':
+            return HalfLine(Pt(a), Pt(tuple(x + y for x, y in zip(a, b))))
+        return Segment(Pt(a), Vc(tuple(y - x for x, y in zip(a, b))))
     if k == 'L':
         return Line(Pt(o[1]), Vc(o[2]))
     if k == 'PL':
